@@ -10,7 +10,7 @@ from mc.props.c05 import AllClassSpace
 from mc.props.c08 import AllClassNestedSpace
 from mc.ref.openql_tr import translate_block, RecProgram, RecKernel
 from mc.ref.schedule import canonical_state
-from mc.spaces import NestedSpace2, TwoLevelSpace
+from mc.spaces import NestedSpace2, TwoLevelSpace, Space
 
 PROP = 'C15'
 LEVEL = 'model_checking'
@@ -67,6 +67,9 @@ def judge(res, prog, c, label):
         res.fail('C15-nondeterministic', '%s %r: exporting twice gives different names or programs: %r vs %r' % (label, prog, p1.names(), p2.names()))
     if p3.names() != p4.names() or p3.linear() != obs or p4.linear() != obs:
         res.fail('C15-nondeterministic-id', '%s %r: exporting twice with the same circuit_id gives different names or programs: %r vs %r' % (label, prog, p3.names(), p4.names()))
+    dup = p1.duplicate_kernel_names()
+    if dup:
+        res.fail('C15-duplicate-kernel-name', '%s %r: different kernels of the exported program share the name(s) %r (OpenQL refuses such a program)' % (label, prog, dup))
     if not same(obs, ref):
         alt = translate_block(c.circuit_structure, blocks_first=True)
         if same(obs, alt):
@@ -129,10 +132,82 @@ class ExportFamily(Family):
         return res
 
 
+HISTORY_PROGRAMS = [
+    (('op', 'X', 0, None),),
+    (('op', 'X', 0, None), ('sub', 2, (('op', 'M', 1, None),))),
+    (('sub', 1, (('op', 'H', 0, None),)), ('op', 'X90', 1, None)),
+    (('op', 'Z', 0, None), ('op', 'M', 0, None)),
+]
+
+
+def export_in_order(order):
+    """Runs in a fresh interpreter: exports the given programs one after the other, returns names and steps of each."""
+    out = []
+    with world.override(world.CFG_G):
+        for i in order:
+            c = build(HISTORY_PROGRAMS[i]).circ
+            with recording_platform():
+                p = to_openql(c)
+            out.append((i, [list(x) for x in p.names()], repr(p.linear())))
+    return out
+
+
+class ExportHistoryFamily(Family):
+    """'The same circuit always yields the same program and kernel names': what a circuit is exported as must not depend on
+    which other circuits the process exported before it.  Every ordered pair of four programs is exported in two fresh
+    interpreters (a then b, b then a) and each program's names and steps are compared across the two."""
+    name = 'openql/export-history'
+    rule = 'every unordered pair of %d programs exported in both orders, each order in a fresh interpreter; non-trivial = always' % len(HISTORY_PROGRAMS)
+
+    def shards(self, tier):
+        return [0]
+
+    def cases(self, tier, shard):
+        n = len(HISTORY_PROGRAMS)
+        return [(i, j) for i in range(n) for j in range(i + 1, n)]
+
+    def describe(self, tier):
+        return {'programs': [repr(p) for p in HISTORY_PROGRAMS]}
+
+    def run(self, case):
+        import json, os, subprocess, sys
+        res = Res()
+        seen = {}
+        for order in (list(case), list(reversed(case))):
+            out = subprocess.run([sys.executable, '-W', 'ignore', '-c',
+                                  'import json, sys; from mc.props.c15 import export_in_order; print(json.dumps(export_in_order(json.loads(sys.argv[1]))))', json.dumps(order)],
+                                 env=dict(os.environ), capture_output=True, text=True, timeout=600)
+            if out.returncode != 0:
+                raise HarnessError('export subprocess failed: ' + out.stderr[-400:])
+            for i, names, steps in json.loads(out.stdout.strip().splitlines()[-1]):
+                if i in seen and seen[i] != (names, steps):
+                    res.fail('C15-history-dependent', 'program %r is exported as %r when it is the first export of a process and as %r after program %r was exported' % (
+                        HISTORY_PROGRAMS[i], seen[i][0] if order[0] != i else names, names if order[0] != i else seen[i][0], HISTORY_PROGRAMS[[x for x in case if x != i][0]]))
+                seen.setdefault(i, (names, steps))
+        res.outcome = tuple(sorted((i, repr(v)) for i, v in seen.items()))
+        res.transitions = 4
+        res.validated = 4
+        res.trivial = False
+        return res
+
+
+class LongSequenceSpace(Space):
+    """L(n): implicitly sequenced programs of up to n entries over two gates and two blocks (runs of gates of equal and of
+    different length in front of, between and behind blocks)."""
+    name = 'L'
+
+    def __init__(self, max_len):
+        super().__init__(max_len)
+        self._s = [('op', 'X', 0, None), ('op', 'X90', 1, None), ('sub', 1, (('op', 'H', 0, None),)), ('sub', 2, (('op', 'M', 1, None), ('sub', 1, (('op', 'Y', 0, None),)), ('op', 'X', 1, None)))]
+
+    def steps(self, i):
+        return self._s
+
+
 def families(tier):
     if tier == 'quick':
-        return [ExportFamily(AllClassSpace(2)), ExportFamily(AllClassNestedSpace()), ExportFamily(NestedSpace2(2)), ExportFamily(TwoLevelSpace(1))]
-    return [ExportFamily(AllClassSpace(2)), ExportFamily(AllClassNestedSpace()), ExportFamily(AllClassSpace(3, ('Rx90', 'Rxm90', 'CPhase', 'Barrier', 'Wait', 'DispersiveMeasure', 'VirtualPark'))),
+        return [ExportHistoryFamily(), ExportFamily(LongSequenceSpace(5)), ExportFamily(AllClassSpace(2)), ExportFamily(AllClassNestedSpace()), ExportFamily(NestedSpace2(2)), ExportFamily(TwoLevelSpace(1))]
+    return [ExportHistoryFamily(), ExportFamily(LongSequenceSpace(6)), ExportFamily(AllClassSpace(2)), ExportFamily(AllClassNestedSpace()), ExportFamily(AllClassSpace(3, ('Rx90', 'Rxm90', 'CPhase', 'Barrier', 'Wait', 'DispersiveMeasure', 'VirtualPark'))),
             ExportFamily(NestedSpace2(2)), ExportFamily(TwoLevelSpace(2))]
 
 
